@@ -131,10 +131,16 @@ BindNs(fs, own, D) == [i \in 1..Len(fs) |-> IF "D14" \in D /\ fs[i].ns \notin {o
 \* a component whose conversion fails is dropped silently by read_xsd (`if let Ok(..)`)
 RECURSIVE HasDangling(_)
 HasDangling(fs) == \E i \in 1..Len(fs) : fs[i].target.k = "dangling" /\ ~fs[i].attr /\ fs[i].ns = "?"
+\* "D43" (open): an xs:annotation inside a model group (field `doc` of a particle) or inside xs:extension (`ext_doc`) is
+\* taken for a member, its conversion fails and the whole type is dropped (complex.rs import_sequence_node_fields)
+RECURSIVE HasDocP(_)
+HasDocP(ps) == \E i \in 1..Len(ps) : "doc" \in DOMAIN ps[i] \/ (ps[i].k \in {"seq", "choice", "all"} /\ HasDocP(ps[i].ps))
+DocInside(b) == "ext_doc" \in DOMAIN b \/ HasDocP(b.content)
 Dropped(S, c, D) == LET f == FileNamed(S, c.f) IN
   /\ "content" \in DOMAIN BodyOf(c)
   /\ \/ (HasBase(BodyOf(c)) /\ BaseLookup(S, f, c.it, BodyOf(c).base, D) = None)
      \/ HasDangling(BuiltFields(S, f, c.it, BodyOf(c), 8, D))
+     \/ ("D43" \in D /\ DocInside(BodyOf(c)))
 
 ---------------------------------------------------------------------------
 (* C02 / C08: violation instances of a field list `got` against the declarative expectation `exp`.  *)
